@@ -396,47 +396,9 @@ def run(ctx):
                   'a negative hex_to_int() result never reaches a non-NULL return' if not rule.violations else
                   'non-hex character accepted: the -1 of hex_to_int() is not tested on its own before it is used (%s)'
                   % rule.violations[0]['what'], h.file, h.line, config=config)
-        # the loop visits every character: for(i = 0; i < checksum_length; i += s) with calls on checksum[i .. i+s-1]
-        from ..ir import walk_stmts
-        loops = [s_ for s_ in walk_stmts(ac.body) if s_.k == 'for']
-        ok_loop = False
-        why = 'no for loop'
-        for lp in loops:
-            init_ok = lp.init is not None and any(
-                (s_.k == 'decl' and s_.e is not None and const_value(s_.e) == 0) or
-                (s_.k == 'expr' and strip(s_.e).k == 'bin' and strip(s_.e).op == '=' and const_value(strip(s_.e).a[1]) == 0)
-                for s_ in walk_stmts(lp.init))
-            c = strip_transparent(lp.e) if lp.e is not None else None
-            cond_ok = c is not None and c.k == 'bin' and c.op == '<' and pstr(c.a[1]) == 'checksum_length'
-            clin = lin(c.a[0]) if cond_ok else None
-            cond_ok = cond_ok and clin is not None and len(clin.t) == 1 and list(clin.t.values()) == [1]
-            ivar = list(clin.t)[0] if cond_ok else None
-            cond_k = clin.c if cond_ok else 0
-            stride = None
-            inc = strip(lp.inc) if lp.inc is not None else None
-            if inc is not None and inc.k == 'un' and inc.op == '++' and pstr(inc.a[0]) == ivar:
-                stride = 1
-            elif inc is not None and inc.k == 'bin' and inc.op == '+=' and pstr(inc.a[0]) == ivar:
-                stride = const_value(inc.a[1])
-            offs = set()
-            sub_ok = True
-            for h in hs:
-                sub = strip(h.a[1])
-                if sub.k != 'idx' or pstr(sub.a[0]) != 'checksum':
-                    sub_ok = False
-                    continue
-                v = lin(sub.a[1])
-                if v is None or v.t != {ivar: 1}:
-                    sub_ok = False
-                else:
-                    offs.add(v.c)
-            no_skip = not any(s_.k in ('continue', 'break', 'goto') for s_ in walk_stmts(lp.body))
-            ok_loop = bool(init_ok and cond_ok and stride and 0 <= cond_k <= stride - 1 and sub_ok and
-                           offs == set(range(stride)) and no_skip)
-            why = 'init0=%s cond=%s stride=%s subscripts=%s no-skip=%s' % (init_ok, cond_ok, stride, sorted(offs), no_skip)
-        ck.ob('C07-b', 'R8.loop-shape', ac.name, 'all-characters', ok_loop,
-              'conversion loop visits checksum[0..checksum_length) once each (%s)' % why, ac.file, ac.line,
-              config=config)
+        # the loop visits every character exactly once (semantic form: any loop spelling)
+        from ..rules.indexwalk import check_index_walk
+        check_index_walk(ck, prog, config, 'C07-b', ac, 'checksum', 'checksum_length', 'hex_to_int')
         # ---- c
         hx = prog.need_func('hex_to_int')
         res = AffineInterp(hx, -128, 127).run()
